@@ -79,6 +79,30 @@ fn scripts() -> Vec<(&'static str, Vec<Unit>)> {
             ],
         ),
         (
+            // the `portable` option changes what the *parser* accepts: the change made by one
+            // line must govern the parsing of the following lines of the same input
+            "parse-option-on-affects-later-lines",
+            vec![
+                u(&["p a"], &["a:0"]),
+                u(&["x=(1 2)"], &[]),
+                u(&["set -o portable; y=(3 4)"], &[]),
+                u(&["p b"], &["b:0"]),
+                Unit { stops: Some(true), ..u(&["z=(5 6)"], &[]) },
+                u(&["p never"], &["never:0"]),
+            ],
+        ),
+        (
+            "parse-option-off-affects-later-lines",
+            vec![
+                u(&["set -o portable"], &[]),
+                u(&["p a"], &["a:0"]),
+                u(&["set +o portable"], &[]),
+                u(&["x=(1 2)"], &[]),
+                u(&["case a in (a) p c1 ;;& (*) p c2 ;; esac"], &["c1:0", "c2:0"]),
+                u(&["p b"], &["b:0"]),
+            ],
+        ),
+        (
             "multi-line-compound",
             vec![
                 u(&["if s 0", "then", "  p t", "else", "  p e", "fi"], &["t:0"]),
